@@ -223,3 +223,37 @@ func VerifC19_Canonical128(k, L int) {
 	}
 	vReach("end")
 }
+
+// work buffers are reused from one sequence to the next (obitag / obirefidx loops): the codes and the table of
+// the second sequence must not depend on what the buffer held (a longer, an equal or a shorter first sequence)
+func VerifC19_FourMerReuse(L1, L2 int) {
+	if L2 < 4 {
+		vSkip()
+		return
+	}
+	a, b := vBytes(L1, "acgt"), vBytes(L2, "acgt")
+	buffer := make([]byte, 0, 2)
+	var first, second, fresh []byte
+	var tabSecond, tabFresh *Table4mer
+	k := vCatch(func() {
+		first = Encode4mer(obiseq.NewBioSequence("a", append([]byte{}, a...), ""), &buffer)
+		second = Encode4mer(obiseq.NewBioSequence("b", append([]byte{}, b...), ""), &buffer)
+		fresh = Encode4mer(obiseq.NewBioSequence("b", append([]byte{}, b...), ""), nil)
+		tabSecond = Count4Mer(obiseq.NewBioSequence("b", append([]byte{}, b...), ""), &buffer, nil)
+		tabFresh = Count4Mer(obiseq.NewBioSequence("b", append([]byte{}, b...), ""), nil, nil)
+	})
+	vAssert(k == 0, "fourmer-reuse-no-panic")
+	if k != 0 {
+		return
+	}
+	_ = first
+	ok := len(second) == len(fresh) && len(fresh) == L2-3
+	if ok {
+		for i := range fresh {
+			ok = ok && second[i] == fresh[i]
+		}
+	}
+	vAssert(ok, "fourmer-codes-do-not-depend-on-the-reused-buffer")
+	vAssert(Sum4Mer(tabSecond) == L2-3 && Common4Mer(tabSecond, tabFresh) == L2-3, "fourmer-table-does-not-depend-on-the-reused-buffer")
+	vReach("end")
+}
